@@ -21,6 +21,17 @@ CLAIMED = {
         design='6/C13'),
 }
 
+CLAIMED['C08'] = dict(
+    level='exploration',
+    text='Seeded search over activate/deactivate/*IDN?/close sequences (global, module, parameter scopes) on 1..3 '
+         'real TCPRequestHandler connections racing poll threads and extra driver tasks at lock operations and at '
+         'line events of dispatcher.py/modulebase.py; each connection\'s line stream is judged against the ground-truth '
+         'history of the parameter cache (snapshot completeness and currency, last message = cache at quiescence, '
+         'nothing after the scope-ending reply, no cross-talk).',
+    note='Trusted: simulation kernel, simulated TCP, the cache history taken from parameter callbacks (invoked by '
+         'frappy inside the update lock). Two in-flight races of broadcast_event are known findings (known_findings.json).',
+    design='6/C08')
+
 NOT_APPLICABLE = {
     'C01': 'pure function of (datatype, candidate, previous) - no schedule, clock, I/O or fault dimension for a simulator to decide',
     'C02': 'pure round-trip law over (datatype, value) - no schedule, clock, I/O or fault dimension',
